@@ -541,7 +541,8 @@ impl BuiltInFunction {
 
                 let start_i64 = start as i64;
                 let end_i64 = end as i64;
-                let length = end_i64 - start_i64;
+                // The difference of two i64 values can overflow (range(-1e30, 1e30))
+                let length = end_i64.checked_sub(start_i64).unwrap_or(i64::MAX);
 
                 if length > u32::MAX as i64 {
                     return Err(RuntimeError::new(format!(
